@@ -251,6 +251,21 @@ static void one_case(rng& g, char const* ename, E const& base, int kind, std::si
         bool ge = c.generator() == r.generator();
         emit_case("vegas", ename, nres, dd, bins, dims, 0, gen_words(base), o.str(), !in.fail(), equal, ge, why);
     }
+    else if (kind == 3)
+    {
+        // a checkpoint that has only been told its parameters: no results, no weights, not even the number of channels yet
+        auto c = hep::make_multi_channel_chkpt<T, E>(T(0.1) / T(3), T(0.25), advanced(base, g));
+        std::ostringstream o;
+        c.serialize(o);
+        std::istringstream in(o.str());
+        auto r = hep::make_multi_channel_chkpt<T, E>(in);
+        bool equal = r.results().empty() && same_bits(r.beta(), c.beta()) && same_bits(r.min_weight(), c.min_weight()) && eq_vec(c.channel_weights(), r.channel_weights());
+        if (!equal) why = "fresh";
+        std::ostringstream o2;
+        r.serialize(o2);
+        if (equal && o2.str() != o.str()) { equal = false; why = "fresh-text"; }
+        emit_case("mc", ename, 0, dd, 0, 0, 0, gen_words(base), o.str(), !in.fail(), equal, c.generator() == r.generator(), why);
+    }
     else
     {
         std::size_t n = 1 + g.below(4);
@@ -299,6 +314,36 @@ static void one_case(rng& g, char const* ename, E const& base, int kind, std::si
     }
 }
 
+// distribution parameters on their own: many ranges and bin counts that are not powers of two - what is read back has the same bin sizes
+// (and lower ends), bit for bit, whichever of the equivalent sets of numbers the text stores
+static void params_family(rng& g, int count)
+{
+    static std::size_t const counts[8] = {7, 25, 50, 100, 11, 13, 3, 41};
+    long long bad = 0, good = 1;
+    std::string first_bad;
+    for (int k = 0; k != count; ++k)
+    {
+        std::size_t bx = counts[g.below(8)], by = g.below(2) ? 1 : counts[g.below(8)];
+        T x0 = k == 0 ? T(0.1) : T((long long) g.below(2001) - 1000) / T(10 + g.below(90));
+        T x1 = k == 0 ? T(1) : x0 + T(1 + g.below(100000)) / T(1 + g.below(1000));
+        T y0 = T((long long) g.below(2001) - 1000) / T(1000);
+        T y1 = y0 + T(1 + g.below(1000)) / T(7);
+        hep::distribution_parameters<T> p(k == 0 ? 25 : bx, by, x0, x1, y0, y1, k % 3 ? "x" : " an observable");
+        std::ostringstream o;
+        p.serialize(o);
+        std::istringstream in(o.str());
+        hep::distribution_parameters<T> q(in);
+        if (in.fail()) good = 0;
+        if (q.name() != p.name() || q.bins_x() != p.bins_x() || q.bins_y() != p.bins_y() || !same_bits(p.x_min(), q.x_min()) || !same_bits(p.y_min(), q.y_min()) ||
+            !same_bits(p.bin_size_x(), q.bin_size_x()) || !same_bits(p.bin_size_y(), q.bin_size_y()))
+        {
+            if (!bad) first_bad = o.str();
+            ++bad;
+        }
+    }
+    ev("Params").s("T", type_name<T>::get()).i("n", count).i("bad", bad).i("good", good).s("firstBad", first_bad).emit();
+}
+
 template <typename E> static void engine_family(rng& g, char const* ename, E const& base, bool thorough, bool heavy)
 {
     // (a name is any line of text: it may look like a comment, a number or a header)
@@ -320,6 +365,7 @@ template <typename E> static void engine_family(rng& g, char const* ename, E con
             }
             for (auto const& dd : sets) one_case(g, ename, base, kind, nres, dd);
         }
+    one_case(g, ename, base, 3, 0, std::vector<dist_desc>());
 }
 
 int main(int argc, char** argv)
@@ -330,6 +376,7 @@ int main(int argc, char** argv)
     rng g(std::strtoull(argv[2], nullptr, 10));
     bool thorough = std::atoi(argv[3]) != 0;
     unsigned s = 1 + (unsigned) g.below(100000);
+    params_family(g, thorough ? 4000 : 1000);
     engine_family(g, "minstd_rand0", std::minstd_rand0(s), thorough, false);
     engine_family(g, "minstd_rand", std::minstd_rand(s), thorough, false);
     engine_family(g, "ranlux24_base", std::ranlux24_base(s), thorough, false);
